@@ -8,7 +8,12 @@
   purity   : the automaton structs and the search path contain no interior mutability and every
              search entry point takes `&self`. Used by C14.
 
-Usage: srcscan.py <unsafe|purity|record-unsafe> [repo_root]
+  changed  : which source files differ (comments and blank lines ignored) from the tree the
+             framework was developed against (tools/source_hashes.json)? Never a failure: ./check
+             uses the answer to raise the quick-tier case budget on changed code. `record-hashes`
+             rewrites the file from the current tree.
+
+Usage: srcscan.py <unsafe|purity|record-unsafe|changed|record-hashes> [repo_root]
 Prints 'OK ...' and exits 0, or prints 'DIFF ...' lines and exits 2.
 """
 import re, sys, os, json
@@ -107,4 +112,21 @@ if mode == 'purity':
                 print(f'DIFF purity {f}: {m.group(1)} takes `{recv}` instead of `&self`')
     if bad: sys.exit(2)
     print('OK purity'); sys.exit(0)
+if mode in ('changed', 'record-hashes'):
+    import hashlib
+    files = FILES + ['daacfind/src/main.rs']
+    cur = {}
+    for f in files:
+        try:
+            t = strip(open(os.path.join(repo, f), encoding='utf-8').read())
+            t = '\n'.join(l.strip() for l in t.split('\n') if l.strip())
+            cur[f] = hashlib.sha256(t.encode()).hexdigest()[:16]
+        except OSError:
+            cur[f] = 'missing'
+    hf = os.path.join(here, 'source_hashes.json')
+    if mode == 'record-hashes':
+        json.dump(cur, open(hf, 'w'), indent=1, sort_keys=True); print('recorded', len(cur)); sys.exit(0)
+    want = json.load(open(hf)) if os.path.exists(hf) else {}
+    ch = sorted(f for f in cur if want.get(f) != cur[f])
+    print('CHANGED ' + ' '.join(ch) if ch else 'UNCHANGED'); sys.exit(0)
 print('bad mode'); sys.exit(2)
